@@ -630,8 +630,9 @@ def bounded_refutation(spec, tier, repo_root, variant, extra_defs, res, workdir)
     why = res['reason'][:300]
     spec = dict(spec, instrument='dfcc')     # the legacy instrumentation cannot enforce a contract on a body with loops
     try:
+        # the refutation search may use the smaller capacities declared for counterexample search (@@cex)
         b = build_unit(spec, tier, workdir, repo_root, variant_defs=(variant[1] if variant else ()),
-                       extra_defs=extra_defs, drop_loops=True)
+                       extra_defs=list(extra_defs) + list(spec.get('cex_defines') or []), drop_loops=True)
     except Undecided as e:
         res['reason'] = why + ' | bounded fallback: ' + str(e)
         return res
